@@ -54,15 +54,22 @@ Section Projection.
   Qed.
 End Projection.
 
-Lemma merge_array_fbits l s e l' a b : merge_array l s e = Ok (l', a, b) -> map fbits l' = map fbits l.
+(* ---- generic form: any per-glyph projection that set_cluster leaves alone (the glyph id, the feature bits, the two
+   scratch variables) is carried unchanged, glyph by glyph, through merge_clusters and delete_glyph *)
+Section Bookkeeping.
+  Variable B : Type.
+  Variable q : info -> B.
+  Hypothesis q_set_cluster : forall i c m, q (set_cluster i c m) = q i.
+
+Lemma merge_array_q l s e l' a b : merge_array l s e = Ok (l', a, b) -> map q l' = map q l.
 Proof.
   unfold merge_array. destruct (nth_error l s); [|discriminate]. destruct (nth_error l (e - 1)); [|discriminate].
-  intro H. injection H as H _ _. subst l'. apply map_p_map_range. intro x. apply fbits_set_cluster.
+  intro H. injection H as H _ _. subst l'. apply map_p_map_range. intro x. apply q_set_cluster.
 Qed.
 
-Theorem merge_clusters_fbits b s e b' : merge_clusters b s e = Ok b' ->
-  map fbits (pre b') = map fbits (pre b) /\ map fbits (rest b') = map fbits (rest b)
-  \/ out_mode b = false /\ map fbits (pre b' ++ rest b') = map fbits (pre b ++ rest b).
+Theorem merge_clusters_q b s e b' : merge_clusters b s e = Ok b' ->
+  map q (pre b') = map q (pre b) /\ map q (rest b') = map q (rest b)
+  \/ out_mode b = false /\ map q (pre b' ++ rest b') = map q (pre b ++ rest b).
 Proof.
   unfold merge_clusters.
   destruct (e - s <? 2)%nat; [intro H; injection H as <-; left; split; reflexivity|].
@@ -72,18 +79,18 @@ Proof.
     destruct (merge_array (rest b) (s - dead b) (e - dead b)) as [[[rest' c0] c]|] eqn:Hma; cbn [bind]; [|discriminate].
     intro H. injection H as <-. left. cbn [pre rest with_pr]. split.
     + destruct ((s =? dead b)%nat && negb (c0 =? c)); [|reflexivity].
-      apply map_p_map_suffix_run. intro x. apply fbits_set_cluster.
-    + eapply merge_array_fbits; eassumption.
+      apply map_p_map_suffix_run. intro x. apply q_set_cluster.
+    + eapply merge_array_q; eassumption.
   - destruct (merge_array (pre b ++ rest b) s e) as [[[arr0 c0] c]|] eqn:Hma; cbn [bind]; [|discriminate].
     intro H. injection H as <-. right. split; [reflexivity|]. cbn [pre rest with_pr].
-    rewrite firstn_skipn. eapply merge_array_fbits; eassumption.
+    rewrite firstn_skipn. eapply merge_array_q; eassumption.
 Qed.
 
 (* delete_glyph in output mode (where GSUB deletes), levels 0 and 1: the deleted glyph goes, every other glyph keeps its
    feature bits - in the branch that merges the cluster BACKWARD into the out-buffer too (the mask handed to set_cluster
    there is the deleted glyph's) *)
-Theorem delete_glyph_fbits b b' : out_mode b = true -> level b <> 2 -> delete_glyph b = Ok b' ->
-  exists x t, rest b = x :: t /\ map fbits (pre b') = map fbits (pre b) /\ map fbits (rest b') = map fbits t.
+Theorem delete_glyph_q b b' : out_mode b = true -> level b <> 2 -> delete_glyph b = Ok b' ->
+  exists x t, rest b = x :: t /\ map q (pre b') = map q (pre b) /\ map q (rest b') = map q t.
 Proof.
   intros Hm Hl. unfold delete_glyph.
   destruct (rest b) as [|x t] eqn:Hr; [discriminate|].
@@ -101,7 +108,7 @@ Proof.
       destruct (Hskip (with_pr b pre' (x :: t) (dead b)) eq_refl Hm b' H) as [Hp Hrest].
       exists x, t. rewrite Hp, Hrest. cbn [pre with_pr]. repeat split; try reflexivity.
       unfold pre'. destruct (cluster x <? old); [|reflexivity].
-      apply map_p_map_suffix_run. intro i. apply fbits_set_cluster.
+      apply map_p_map_suffix_run. intro i. apply q_set_cluster.
     + destruct t as [|y t'].
       * intro H. destruct (Hskip b Hr Hm b' H) as [Hp Hrest]. exists x, []. rewrite Hp, Hrest. repeat split; reflexivity.
       * unfold merge_clusters_full.
@@ -114,13 +121,42 @@ Proof.
           destruct (dead b <? dead b)%nat; [discriminate|].
           destruct (merge_array (rest b) (dead b - dead b) (dead b + 2 - dead b)) as [[[r0 c0] c]|]; cbn [bind]; [|discriminate].
           intro H0. injection H0 as <-. exact Hm. }
-        destruct (merge_clusters_fbits _ _ _ _ Hmc) as [[Hp Hrs]|[Hf _]]; [|congruence].
+        destruct (merge_clusters_q _ _ _ _ Hmc) as [[Hp Hrs]|[Hf _]]; [|congruence].
         rewrite Hr in Hrs.
         destruct (rest b1) as [|x1 t1] eqn:Hr1; [discriminate Hrs|].
         cbn [map] in Hrs. injection Hrs as _ Ht.
         revert H. unfold skip_glyph. rewrite Hr1, Hm1. intro H. injection H as <-. cbn [pre rest with_pr].
         exists x, (y :: t'). repeat split; [exact Hp|exact Ht].
 Qed.
+
+End Bookkeeping.
+
+Lemma merge_array_fbits l s e l' a b : merge_array l s e = Ok (l', a, b) -> map fbits l' = map fbits l.
+Proof. apply merge_array_q. exact fbits_set_cluster. Qed.
+
+Theorem merge_clusters_fbits b s e b' : merge_clusters b s e = Ok b' ->
+  map fbits (pre b') = map fbits (pre b) /\ map fbits (rest b') = map fbits (rest b)
+  \/ out_mode b = false /\ map fbits (pre b' ++ rest b') = map fbits (pre b ++ rest b).
+Proof. apply merge_clusters_q. exact fbits_set_cluster. Qed.
+
+Theorem delete_glyph_fbits b b' : out_mode b = true -> level b <> 2 -> delete_glyph b = Ok b' ->
+  exists x t, rest b = x :: t /\ map fbits (pre b') = map fbits (pre b) /\ map fbits (rest b') = map fbits t.
+Proof. apply delete_glyph_q. exact fbits_set_cluster. Qed.
+
+(* the glyph ids: cluster bookkeeping never changes which glyphs the buffer holds, or their order *)
+Lemma gid_set_cluster i c m : gid (set_cluster i c m) = gid i.
+Proof. unfold set_cluster. destruct (cluster i =? c); reflexivity. Qed.
+
+Theorem merge_clusters_gids b s e b' : merge_clusters b s e = Ok b' ->
+  map gid (pre b' ++ rest b') = map gid (pre b ++ rest b).
+Proof.
+  intro H. destruct (merge_clusters_q _ gid gid_set_cluster _ _ _ _ H) as [[Hp Hr]|[_ Ha]]; [|exact Ha].
+  rewrite !map_app, Hp, Hr. reflexivity.
+Qed.
+
+Theorem delete_glyph_gids b b' : out_mode b = true -> level b <> 2 -> delete_glyph b = Ok b' ->
+  exists x t, rest b = x :: t /\ map gid (pre b') = map gid (pre b) /\ map gid (rest b') = map gid t.
+Proof. apply delete_glyph_q. exact gid_set_cluster. Qed.
 
 (* non-vacuity: the backward-merging branch on a concrete buffer (descending clusters, as in a run shaped against its
    script's direction): the survivor takes cluster 0 and the deleted glyph's FLAG bits, and keeps its own feature bits *)
